@@ -524,6 +524,15 @@ def part_surrogate(ck, reqs, post):
                             extra={"objective_scaler": "identity", "acq_optimizer": "sampling"})
             orig_tell = s.tell
 
+            def _batch(objs, ncall, nfit, err):
+                # a fit belongs to this tell only when Optimizer.tell was called in it: a refit of
+                # unchanged data on a *copy* of the optimizer (refresh of the next point when every
+                # result was an ignored failure) tells the optimizer nothing
+                told = spy.calls[ncall][1] if len(spy.calls) > ncall else None
+                fit = _FITS[nfit] if (len(_FITS) > nfit and told is not None) else None
+                extra = [f for f in _FITS[nfit:]] if told is None else []
+                return {"objs": objs, "told": told, "fit": fit, "err": err, "refits": extra}
+
             def tell(results):
                 nfit, ncall = len(_FITS), len(spy.calls)
                 objs = [job.objective for job in results]
@@ -532,11 +541,9 @@ def part_surrogate(ck, reqs, post):
                     orig_tell(results)
                 except Exception as e:
                     err = type(e).__name__
-                    batches.append({"objs": objs, "told": spy.calls[ncall][1] if len(spy.calls) > ncall else None,
-                                    "fit": _FITS[nfit] if len(_FITS) > nfit else None, "err": err})
+                    batches.append(_batch(objs, ncall, nfit, err))
                     raise
-                batches.append({"objs": objs, "told": spy.calls[ncall][1] if len(spy.calls) > ncall else None,
-                                "fit": _FITS[nfit] if len(_FITS) > nfit else None, "err": None})
+                batches.append(_batch(objs, ncall, nfit, None))
 
             s.tell = tell
             err = None
@@ -568,11 +575,11 @@ def part_surrogate(ck, reqs, post):
         post.append(("surrogate", case, {"batches": batches, "err": err}))
         # L3: nothing non-finite, no marker, reaches the surrogate
         for b in batches:
-            if b["fit"] is not None:
-                flat = [x for v in b["fit"] for x in (v if isinstance(v, list) else [v])]
+            for fit in ([b["fit"]] if b["fit"] is not None else []) + b.get("refits", []):
+                flat = [x for v in fit for x in (v if isinstance(v, list) else [v])]
                 if any(not math.isfinite(x) for x in flat):
                     ck.fail(f"{PROP}|nonfinite-reaches-surrogate|CBO.search|{'moo' if nobj > 1 else 'single'},kind={kind}",
-                            "estimator.fit received a non-finite target", case, {"y": repr(b["fit"])})
+                            "estimator.fit received a non-finite target", case, {"y": repr(fit)})
 
 
 # --------------------------------------------------------------------------- part E: regularized evolution
